@@ -265,6 +265,8 @@ def run(tier, seed, agg):
     cases += [dict(kind=k, payload=p, steps=list(s), end=8, nmax=3 if q else 5, via="composition", order=o) for k in DELAYED for p in PAYLOADS for s in ((1, 1), (1, 2), (2, 1), (1, 3), (3, 2)) for o in ("PC", "CP")]
     cases += [dict(kind=k, payload="grid", steps=list(s), end=7, nmax=3, via="composition", order="CP") for k in KINDS for s in ((1, 1), (1, 2), (2, 3))]
     cases += [dict(kind=k, payload="masked_sometimes", steps=list(s), end=7, nmax=4, via="composition") for k in ("direct", "Next", "Previous", "Linear", "Step", "Avg") for s in ((1, 1), (1, 2), (2, 1), (1, 3))]
+    # a slow producer under a fast consumer (several pulls inside one publication interval)
+    cases += [dict(kind=k, payload=p, steps=list(s), end=14, nmax=3, via="composition") for k in ("direct", "Linear", "Next", "Avg") for p in ("scalar", "grid") for s in ((6, 1), (5, 2), (4, 1))]
     # long runs: dozens of publications and spill files (counters, name collisions, accumulated memory accounting)
     cases += [dict(kind=k, payload=p, steps=list(s), end=45, limits=[0, 47, 48, 100, 500], via="composition") for k in KINDS + ["Linear+D"] for p in ("grid", "masked") for s in ((1, 1), (1, 3), (2, 5), (1, 11))]
     k = seed % len(cases)
